@@ -89,7 +89,7 @@ func (d *doc) font(name string) *canvas.Font {
 	return f
 }
 
-var imgOpaque, imgAlpha image.Image
+var imgOpaque, imgAlpha, imgGray image.Image
 
 func init() {
 	o := image.NewNRGBA(image.Rect(0, 0, 3, 2))
@@ -103,6 +103,13 @@ func init() {
 		}
 	}
 	imgOpaque, imgAlpha = o, a
+	g := image.NewGray(image.Rect(0, 0, 3, 2))
+	for y := 0; y < 2; y++ {
+		for x := 0; x < 3; x++ {
+			g.SetGray(x, y, color.Gray{uint8(30 + 60*x + 40*y)})
+		}
+	}
+	imgGray = g
 }
 
 // all printable ASCII characters: more than 92 distinct glyphs, so that the two-byte glyph codes
@@ -225,6 +232,10 @@ func alphabet() []action {
 		}},
 		action{"Image(alpha)", func(d *doc) {
 			d.p.RenderImage(imgAlpha, canvas.Identity.Translate(5, 5).Scale(3, 3))
+			d.page().images++
+		}},
+		action{"Image(gray)", func(d *doc) {
+			d.p.RenderImage(imgGray, canvas.Identity.Translate(12, 3).Scale(2, 2))
 			d.page().images++
 		}},
 		action{"SetImageEncoding(Lossy)", func(d *doc) { d.p.SetImageEncoding(canvas.Lossy) }},
@@ -782,6 +793,18 @@ func checkImage(f *findings, d *pdfread.Doc, n int, st *pdfread.Stream, dc decod
 		cfg, err := jpeg.DecodeConfig(bytes.NewReader(st.Raw))
 		if err != nil || int64(cfg.Width) != w || int64(cfg.Height) != h {
 			f.add("image-data", "object %d: JPEG is %dx%d (%v), dictionary says %dx%d", n, cfg.Width, cfg.Height, err, w, h)
+		} else {
+			// the number of colour components of the JPEG data must be that of the colour space
+			jc := int64(3)
+			switch cfg.ColorModel {
+			case color.GrayModel:
+				jc = 1
+			case color.CMYKModel:
+				jc = 4
+			}
+			if jc != comps {
+				f.add("image-data", "object %d: the JPEG data has %d colour component(s), ColorSpace %s has %d", n, jc, pdfread.Fmt(st.Dict["ColorSpace"]), comps)
+			}
 		}
 	} else {
 		want := ((w*comps*bpc + 7) / 8) * h
